@@ -96,7 +96,11 @@ def go_build(name, race=False):
     """(re)build the test binary of one package from /repo's working tree with the harness overlaid"""
     with Lock("go-" + name):
         ov = write_overlay()
-        out = os.path.join(BUILD, name + (".race" if race else "") + ".test")
+        # one binary per check process: another check running in parallel may be executing its own copy right now, and a
+        # running binary cannot be overwritten
+        out = os.path.join(BUILD, "%s%s.%d.test" % (name, ".race" if race else "", os.getpid()))
+        import atexit
+        atexit.register(lambda p=out: os.path.exists(p) and os.remove(p))
         cmd = ["go", "test", "-c", "-tags", "verif", "-vet=off", "-overlay", ov, "-o", out]
         if race:
             cmd.append("-race")
